@@ -49,6 +49,17 @@ const (
 var numNames = []string{"n1", "n2", "n3", "n4", "n1", "n2", "fz", "fnz", "名前", "x\u0662"}
 var strNames = []string{"s1", "s2", "s3", "cafe\u0301"}
 
+// (subject, pattern) pairs of which neighbours cannot be told apart once the two strings are
+// joined with a separator in either order - and which have different answers
+var rePairs = func() [][2]string {
+	var out [][2]string
+	for _, sep := range []string{"/", ":", ",", " ", "\x00", "-", ""} {
+		out = append(out, [2]string{"aaab", "b" + sep + "c"}, [2]string{"c" + sep + "aaab", "b"}) // pattern + sep + subject
+		out = append(out, [2]string{"zb" + sep + "b", "zb"}, [2]string{"zb", "b" + sep + "zb"})     // subject + sep + pattern
+	}
+	return out
+}()
+
 var regexpPatterns = []string{"'^a'", "'[0-9]+'", "'l+o'", "'.*'", "'^[A-Z]'", "'b$'", "'a|b'", "'^$'", "'[a-c]+'", "'wor'", "'\\\\d'", "'^.{3}$'", "'x?y'", "'(ab)+'", "'[^a]'", "'o w'",
 	"'^h'", "'d$'", "'l{2}'", "'A'", "'[0-9]{2}'", "'^ '", "' $'", "'小'", "'[,]'", "'e.l'", "'^.$'", "'3'", "'[.]5'", "'q+'"}
 
@@ -429,6 +440,9 @@ func (g *gen) boolean(d int, leaf bool) string {
 	case 7:
 		return "includes(" + g.pick([]string{"as1", "['a', 'b']", "[s1, s2]"}) + ", " + e(tStr) + ")"
 	case 8:
+		if g.s.Intn(3) == 0 { // subject and pattern both from the data: one shared tree, another pair for every caller
+			return "regexp(rs, rp)"
+		}
 		return "regexp(" + e(tStr) + ", " + g.pick(regexpPatterns) + ")"
 	case 9:
 		return e(tBool) + " && " + e(tBool)
@@ -698,6 +712,7 @@ func (d dataSpec) build(log *hostLog, loc *time.Location) map[string]interface{}
 		"z1": nil,
 		"zn": []string{"UTC", "Asia/Shanghai", "America/New_York", "Europe/London", "Asia/Kathmandu", "Etc/GMT+5", "Australia/Lord_Howe", "Sim/Shanghai"}[(d.Nums[6]+1000)%8],
 		"tz": time.Time{},
+		"rs": rePairs[(d.Nums[3]+d.Nums[5]+2000)%len(rePairs)][0], "rp": rePairs[(d.Nums[3]+d.Nums[5]+2000)%len(rePairs)][1],
 		"cv": map[string]interface{}{"Name": "first", "NAME": "second", "nAmE": d.num(3), "namE": nil}, // keys that differ only in case
 		"t1": time.Unix(int64(d.Nums[0])*86400*30+int64(d.Nums[1])*977, int64(d.Nums[2]+1000)*1000).In(loc),
 		"o1": map[string]interface{}{
